@@ -1,21 +1,39 @@
 /-
   C05 — Hayson JSON conforms to the Project Haystack JSON encoding in both directions.
 
-  The independent implementation written from the specification is the reference reader
-  `Hs.Spec.Hayson.readDoc` (Lean; members looked up by name) and the reference writer
-  harness/src/jspell.rs (Rust; random member order, optional members, number spellings).  On every
-  run the reference reader reads the library's documents for thousands of values and the library
-  reads the reference writer's documents (both compared component by component); the model of the
-  library's visitor is compared with the implementation on the same permuted documents.
-  Theorems here: looking a member up by name does not depend on member order (so the reference
-  reader is order independent by construction); the library's encoder model and the reference
-  reader agree on the `_kind` tags and field names of every scalar kind (one representative per
-  kind, exhaustive for the finite kinds).  Order independence of the library's visitor on Hayson
-  documents is `Hs.C05perm` (see Thm/C05perm.lean).
+  The specification is written down twice, independently of libhaystack's code:
+  * as a RELATION, `Hs.Spec.Hayson.Denotes w doc` (Spec/HaysonDenote.lean): which JSON trees are Hayson
+    documents of which value — `_kind` tags and field names per kind, plain JSON for null/bool/string/
+    unit-less number/list/dict, the members of every object in any order, optional members present or
+    absent, number tokens of either lexical class (integer; decimal/exponent);
+  * as PROGRAMS: the reference reader `Hs.Spec.Hayson.readDoc` (Lean; members looked up by name) and the
+    reference writer harness/src/jspell.rs (Rust; random member order, optional members, number
+    spellings), which exchange documents with the library on every run.
+
+  Theorems here (all about the tree-level model `Hs.Hayson.toJson` / `fromJson` of the library's serde
+  (de)serialisers):
+  * READ direction, `C05_read_holds`: every Hayson document of a value — any member order at any depth,
+    `_kind` anywhere, every optional member present or absent, integer or decimal/exponent number tokens —
+    is decoded to exactly that value.
+  * WRITE direction, `C05_write_holds`: the encoder's document of a well-formed value is a Hayson document
+    of that value (of its image `Hs.C02.jImage`), so the read theorem is not vacuous and C02 is a corollary.
+  * REFERENCE READER vs relation vs decoder, `C05_reader_agrees`: on every Hayson document (`Denotes`) the
+    reference reader — with the fuel `readDoc` gives it — and the library's decoder give the same value
+    (the reader represents an empty grid/column meta as an absent one: `readerImage`; hypothesis
+    `MetaUntagged`: no `_kind` member inside a grid meta / column meta, which the reader would take for a tag).
+    Hence `C05_writer_conforms`: the reference reader reads the encoder's document of EVERY well-formed value,
+    of any kind and nesting, as the value (the `writer_conforms_*` representatives below are instances).
+  * the reference reader is order independent by construction (`lookup_perm`); it is more lenient than
+    `Denotes` (`readDoc_lenient`), which is why the read direction is stated with the relation and not as
+    "whatever `readDoc` accepts".
+  Order independence of the visitor alone, under its exact hypotheses, is `Hs.C05perm` (Thm/C05perm.lean).
 -/
 import Hs.Spec.HaysonRead
+import Hs.Lemmas.HaysonRead4
+import Hs.Lemmas.HaysonRead5
+import Hs.Lemmas.HaysonReadRef4
 namespace Hs.C05
-open Hs Hs.Hayson Hs.Spec.Hayson
+open Hs Hs.Hayson Hs.Spec.Hayson Hs.C02
 
 /-- `find?` for a key that occurs at most once does not depend on the order of the list -/
 theorem find_key_perm {α : Type} {l₁ l₂ : List (List Char × α)} (h : l₁.Perm l₂)
@@ -82,5 +100,256 @@ theorem writer_conforms_scalars :
 /-- strings of every content are plain JSON strings for both sides -/
 theorem writer_conforms_str (x : List Char) : readDoc (toJson (.str x)) = some (.str x) := by
   simp [toJson, readDoc, size, Hs.Spec.Hayson.read]
+
+/-! ## Read direction: every Hayson document of a value is decoded to that value
+
+`Denotes w doc` (Spec/HaysonDenote.lean) grants, for every object at any depth, any member order
+(`_kind` first, in the middle or last), and
+
+| optional member | absent | present |
+|---|---|---|
+| `unit` of a number | unit-less | any id of a database unit; the number carries the unit's symbol |
+| the `{"_kind":"number",…}` object around a unit-less finite number | bare number token | object |
+| `dis` of a ref | `dis = none` | `dis = some …` |
+| `tz` of a dateTime | zone absent (`lexDateTime x none`) | zone name (`lexDateTime x (some z)`) |
+| `"_kind":"dict"` of a dict, a grid meta, a column meta, a row | same dict | same dict |
+| `meta` of a grid | no meta, version 3.0 | meta tags (without `ver`) |
+| `ver` in a grid meta | version 3.0 | that version |
+| `meta` of a column | no meta | meta tags |
+
+and number tokens of either lexical class: `.int i f` (an integer lexeme such as `1`) and `.flt f`
+(a decimal or exponent lexeme such as `1.0`, `1e0`) denote the double `f` the lexeme converts to — the
+decoded number carries exactly that `f` (bit pattern and text), whatever the class and whatever `i`;
+`"INF"`, `"-INF"`, `"NaN"` denote `+∞`, `−∞` and the canonical quiet NaN.  (Which double a lexeme converts
+to is serde_json's text layer, outside the model: trusted base.) -/
+
+/-- The read direction at full strength. -/
+def C05_read_full : Prop :=
+  ∀ (w : Val) (doc : Json), Denotes w doc → fromJson doc = .ok w
+
+/-- **C05 read direction for the model**: proved in full, by induction on the derivation of `Denotes`
+(Lemmas/HaysonRead1–3; the member order is discharged once, by `fromJson_obj_of_perm`). -/
+theorem C05_read_holds : C05_read_full := fun _ _ h => read_denotes h
+
+/-- The write direction against the same relation: the encoder's document IS a Hayson document of the
+value (`jImage`: what the document says — dates/times/timestamps as texts, canonical NaN, `0` for a
+unit-less `-0.0`, the empty meta the encoder writes for an absent one, version 3.0). -/
+def C05_write_full (WF : Val → Prop) : Prop :=
+  ∀ v, WF v → Denotes (jImage v) (toJson v)
+
+/-- **C05 write direction for the model** (and non-vacuity of `C05_read_holds`: for every well-formed
+value there is a document satisfying its hypothesis) -/
+theorem C05_write_holds : C05_write_full WFj := fun v h => denotes_val v h
+
+/-- The property at full strength for the model: both directions against the one relation. -/
+def C05_full (WF : Val → Prop) : Prop := C05_write_full WF ∧ C05_read_full
+
+theorem C05_holds : C05_full WFj := ⟨C05_write_holds, C05_read_holds⟩
+
+/-- C02 (`fromJson (toJson v) = ok (jImage v)`) is the composition of the two directions -/
+theorem C05_roundtrip (v : Val) (h : WFj v) : fromJson (toJson v) = .ok (jImage v) :=
+  C05_read_holds _ _ (C05_write_holds v h)
+
+/-- the side condition of `Denotes` on dicts (tags listed in ascending key order, as a `BTreeMap` holds them)
+excludes no document: EVERY object with pairwise distinct member names, none of them `_kind`, whose member
+values are Hayson documents is a Hayson document of a dict — hence decoded to it -/
+theorem dict_objects_covered (ms : Members) (hd : (ms.toList.map (·.1)).Nodup)
+    (hk : ∀ p ∈ ms.toList, p.1 ≠ s "_kind") (hv : ∀ p ∈ ms.toList, ∃ w, Denotes w p.2) :
+    ∃ t : Tags, Denotes (.dict t) (.obj ms) ∧ fromJson (.obj ms) = .ok (.dict t) := by
+  obtain ⟨t, h⟩ := denotes_dict_exists ms hd hk hv
+  exact ⟨t, h, C05_read_holds _ _ h⟩
+
+/-- the relation is unambiguous: a document is a Hayson document of at most one value -/
+theorem denotes_unique {w w' : Val} {doc : Json} (h : Denotes w doc) (h' : Denotes w' doc) : w = w' := by
+  have e := (C05_read_holds w doc h).symm.trans (C05_read_holds w' doc h')
+  exact Res.ok.inj e
+
+/-- number spellings: an integer token and a decimal/exponent token of the same double are decoded alike,
+bare … -/
+theorem read_number_spelling (i : Int) (f : Flt) : fromJson (.int i f) = fromJson (.flt f) := by
+  simp [fromJson]
+
+/-- … and as the `val` of a number object or `lat`/`lng` of a coord, in any member order, with or without
+unit: two documents that differ only in the spelling of number tokens denote the same value -/
+theorem denotes_respell {f : Flt} {j j' : Json} {u : Option (List Char)} {um : Mems} {ms ms' : Members}
+    (hj : NumTok f j) (hj' : NumTok f j') (hu : OptUnit u um)
+    (hp : ms.toList.Perm (kindMem "number" :: (s "val", j) :: um))
+    (hp' : ms'.toList.Perm (kindMem "number" :: (s "val", j') :: um)) :
+    fromJson (.obj ms) = fromJson (.obj ms') := by
+  rw [C05_read_holds _ _ (.number (.tok hj) hu hp), C05_read_holds _ _ (.number (.tok hj') hu hp')]
+
+/-! ### non-canonical documents (none of them is what the encoder writes) -/
+
+def f64_1 : Flt := { bits := 0x3FF0000000000000, txt := ['1'] }
+def f64_half : Flt := { bits := 0x3FE0000000000000, txt := "0.5".toList }
+
+/-- `{"val":"a","_kind":"ref"}`: `_kind` last, `dis` omitted -/
+example : Denotes (.ref (s "a") none)
+    (.obj (.cons (s "val") (.str (s "a")) (.cons (s "_kind") (.str (s "ref")) .nil))) :=
+  .ref .absent (List.Perm.swap _ _ _)
+
+/-- `{"val":"a","_kind":"ref","dis":"A"}`: `_kind` in the middle, `dis` present -/
+example : fromJson (.obj (.cons (s "val") (.str (s "a")) (.cons (s "_kind") (.str (s "ref"))
+    (.cons (s "dis") (.str (s "A")) .nil)))) = .ok (.ref (s "a") (some (s "A"))) :=
+  C05_read_holds _ _ (.ref (.present _) (List.Perm.swap _ _ _))
+
+/-- `{"unit":"meter","val":1,"_kind":"number"}` and `{"val":1.0,"unit":"m","_kind":"number"}`: integer and
+decimal spelling, unit given by name and by symbol, `_kind` last — both are `1 m` -/
+example :
+    fromJson (.obj (.cons (s "unit") (.str (s "meter")) (.cons (s "val") (.int 1 f64_1)
+      (.cons (s "_kind") (.str (s "number")) .nil)))) = .ok (.num { v := f64_1, unit := some (s "m") }) ∧
+    fromJson (.obj (.cons (s "val") (.flt f64_1) (.cons (s "unit") (.str (s "m"))
+      (.cons (s "_kind") (.str (s "number")) .nil)))) = .ok (.num { v := f64_1, unit := some (s "m") }) := by
+  constructor
+  · refine C05_read_holds _ _ (.number (.tok (.int 1 _)) (.present (s "meter") (s "m") (by decide +kernel)) ?_)
+    exact (List.reverse_perm _).symm
+  · refine C05_read_holds _ _ (.number (.tok (.flt _)) (.present (s "m") (s "m") (by decide +kernel)) ?_)
+    exact List.perm_append_comm (l₁ := [(s "val", .flt f64_1), (s "unit", .str (s "m"))]) (l₂ := [kindMem "number"])
+
+/-- a unit-less finite number as `1`, as `1.0`/`1e0`, and as `{"val":1e0,"_kind":"number"}` (unit omitted) -/
+example :
+    fromJson (.int 1 f64_1) = .ok (.num { v := f64_1, unit := none }) ∧
+    fromJson (.flt f64_1) = .ok (.num { v := f64_1, unit := none }) ∧
+    fromJson (.obj (.cons (s "val") (.flt f64_1) (.cons (s "_kind") (.str (s "number")) .nil)))
+      = .ok (.num { v := f64_1, unit := none }) :=
+  ⟨C05_read_holds _ _ (.numTok (.int 1 _)), C05_read_holds _ _ (.numTok (.flt _)),
+   C05_read_holds _ _ (.number (.tok (.flt _)) .absent (List.Perm.swap _ _ _))⟩
+
+/-- `{"tz":"UTC","_kind":"dateTime","val":"2020-01-01T00:00:00Z"}` and the same without `tz` -/
+example :
+    Denotes (lexDateTime (s "2020-01-01T00:00:00Z") (some (s "UTC")))
+      (.obj (.cons (s "tz") (.str (s "UTC")) (.cons (s "_kind") (.str (s "dateTime"))
+        (.cons (s "val") (.str (s "2020-01-01T00:00:00Z")) .nil)))) ∧
+    Denotes (lexDateTime (s "2020-01-01T00:00:00Z") none)
+      (.obj (.cons (s "val") (.str (s "2020-01-01T00:00:00Z")) (.cons (s "_kind") (.str (s "dateTime")) .nil))) := by
+  constructor
+  · refine .dateTime (.present _) ?_
+    exact ((List.Perm.swap _ _ _).trans ((List.Perm.swap _ _ _).cons _))
+  · exact .dateTime .absent (List.Perm.swap _ _ _)
+
+/-- `{"lng":0.5,"_kind":"coord","lat":1}`: integer and decimal tokens, `_kind` in the middle -/
+example : fromJson (.obj (.cons (s "lng") (.flt f64_half) (.cons (s "_kind") (.str (s "coord"))
+    (.cons (s "lat") (.int 1 f64_1) .nil)))) = .ok (.coord f64_1 f64_half) :=
+  C05_read_holds _ _ (.coord (.int 1 _) (.flt _) ((List.Perm.swap _ _ _).trans ((List.Perm.swap _ _ _).cons _)))
+
+/-- `{"b":true,"_kind":"dict","a":{"_kind":"marker"}}` and `{"b":true,"a":{"_kind":"marker"}}` are the
+dict `{a: M, b: T}` -/
+def d_ab : Tags := .cons (s "a") .marker (.cons (s "b") (.bool true) .nil)
+theorem d_ab_members : DenotesM d_ab
+    [(s "a", .obj (.cons (s "_kind") (.str (s "marker")) .nil)), (s "b", .bool true)] :=
+  .cons .marker (.cons (.bool true) .nil)
+theorem d_ab_keys : TagKeys d_ab :=
+  ⟨by decide, by intro k hk; simp [d_ab, Tags.keys] at hk; rcases hk with e | e <;> subst e <;> decide⟩
+
+example :
+    fromJson (.obj (.cons (s "b") (.bool true) (.cons (s "_kind") (.str (s "dict"))
+      (.cons (s "a") (.obj (.cons (s "_kind") (.str (s "marker")) .nil)) .nil)))) = .ok (.dict d_ab) ∧
+    fromJson (.obj (.cons (s "b") (.bool true)
+      (.cons (s "a") (.obj (.cons (s "_kind") (.str (s "marker")) .nil)) .nil))) = .ok (.dict d_ab) := by
+  constructor
+  · refine C05_read_holds _ _ (.dict (.mk d_ab_members d_ab_keys .present ?_))
+    exact (List.Perm.swap _ _ _).trans ((List.Perm.swap _ _ _).cons _)
+  · exact C05_read_holds _ _ (.dict (.mk d_ab_members d_ab_keys .absent (List.Perm.swap _ _ _)))
+
+/-- a grid without `meta`, `_kind` last, a column with an (empty) `meta` and one without, a row tagged
+`"_kind":"dict"`:
+`{"rows":[{"_kind":"dict","b":true,"a":{"_kind":"marker"}}],"cols":[{"meta":{},"name":"a"},{"name":"b"}],"_kind":"grid"}` -/
+example : fromJson (.obj
+    (.cons (s "rows") (.arr (.cons (.obj (.cons (s "_kind") (.str (s "dict")) (.cons (s "b") (.bool true)
+        (.cons (s "a") (.obj (.cons (s "_kind") (.str (s "marker")) .nil)) .nil)))) .nil))
+    (.cons (s "cols") (.arr (.cons (.obj (.cons (s "meta") (.obj .nil) (.cons (s "name") (.str (s "a")) .nil)))
+        (.cons (.obj (.cons (s "name") (.str (s "b")) .nil)) .nil)))
+    (.cons (s "_kind") (.str (s "grid")) .nil))))
+    = .ok (.grid .none (.cons (s "a") (.some .nil) (.cons (s "b") .none .nil)) (.cons d_ab .nil) (s "3.0")) := by
+  refine C05_read_holds _ _ (.gridNoMeta ?_ ?_ (List.reverse_perm _).symm)
+  · refine .consMeta (.mk .nil ⟨rfl, by intro k hk; cases hk⟩ .absent (List.Perm.refl _)) (List.Perm.swap _ _ _) ?_
+    exact .consNoMeta (List.Perm.refl _) .nil
+  · refine .cons (.mk d_ab_members d_ab_keys .present ?_) .nil
+    exact (List.Perm.swap _ _ _).cons _
+
+/-- a grid meta with `ver` and a tag, in either order, with and without `"_kind":"dict"`; and an empty meta:
+`{"_kind":"grid","meta":{"dis":"G","ver":"2.0"},"cols":[],"rows":[]}` has version 2.0 and the meta `{dis}` -/
+example : fromJson (.obj
+    (.cons (s "_kind") (.str (s "grid"))
+    (.cons (s "meta") (.obj (.cons (s "dis") (.str (s "G")) (.cons (s "ver") (.str (s "2.0")) .nil)))
+    (.cons (s "cols") (.arr .nil) (.cons (s "rows") (.arr .nil) .nil)))))
+    = .ok (.grid (.some (.cons (s "dis") (.str (s "G")) .nil)) .nil .nil (s "2.0")) := by
+  refine C05_read_holds _ _ (.gridMeta (km := []) (.cons (.str _) .nil)
+    ⟨rfl, by intro k hk; simp [Tags.keys] at hk; subst hk; decide⟩
+    (by intro k hk; simp [Tags.keys] at hk; subst hk; decide) .absent (.present _) ?_ .nil .nil (List.Perm.refl _))
+  exact List.Perm.swap _ _ _
+
+/-! ## The reference reader agrees with the relation and with the decoder
+
+`readDoc` (Spec/HaysonRead.lean) is the executable form of the specification that exchanges documents with
+the real code on every run.  On every Hayson document it computes the value the relation says, and the
+decoder computes the same value.  Two conventions of the reader are made explicit: it represents an empty
+grid meta / column meta as an absent one (`readerImage`), and it does not set a `"_kind":"dict"` member of
+a grid meta / column meta aside but takes it for a tag (`MetaUntagged` excludes such documents; the
+decoder and `Denotes` treat `{"_kind":"dict",…}` as the same dict everywhere). -/
+
+/-- Reader and decoder agree on every Hayson document, at full strength. -/
+def C05_reader_agrees_full : Prop :=
+  ∀ (w : Val) (doc : Json), Denotes w doc → MetaUntagged doc →
+    readDoc doc = some (readerImage w) ∧ fromJson doc = .ok w
+
+/-- **the reference reader and the library's decoder give the same value on every Hayson document**
+(refinement of the reference reader by the decoder, on the documents of the relation) -/
+theorem C05_reader_agrees : C05_reader_agrees_full :=
+  fun _ _ h hu => ⟨reader_denotes h hu, read_denotes h⟩
+
+/-- Write direction against the reference reader, every value. -/
+def C05_writer_conforms_full (WF : Val → Prop) : Prop :=
+  ∀ v, WF v → readDoc (toJson v) = some (readerImage (jImage v))
+
+/-- **writer conformance for every well-formed value** (all kinds, lists, dicts, grids, any nesting): the
+reference reader reads the encoder's document as the value -/
+theorem C05_writer_conforms : C05_writer_conforms_full WFj := fun v h => reader_reads_writer v h
+
+/-- the hypothesis `MetaUntagged` is needed: on `{"_kind":"grid","meta":{"_kind":"dict"},"cols":[],"rows":[]}`
+the decoder (and `Denotes`) see an empty meta, the reference reader a meta with one tag named `_kind` -/
+theorem reader_meta_kind_tag :
+    okIs (readDoc (.obj (.cons (s "_kind") (.str (s "grid"))
+      (.cons (s "meta") (.obj (.cons (s "_kind") (.str (s "dict")) .nil))
+      (.cons (s "cols") (.arr .nil) (.cons (s "rows") (.arr .nil) .nil))))))
+      (fun v => match v with | .grid (.some (.cons k _ .nil)) _ _ _ => k == s "_kind" | _ => false) = true ∧
+    C02.okIs (fromJson (.obj (.cons (s "_kind") (.str (s "grid"))
+      (.cons (s "meta") (.obj (.cons (s "_kind") (.str (s "dict")) .nil))
+      (.cons (s "cols") (.arr .nil) (.cons (s "rows") (.arr .nil) .nil))))))
+      (fun v => match v with | .grid (.some .nil) _ _ _ => true | _ => false) = true := by
+  decide +kernel
+
+/-- non-vacuity of `C05_reader_agrees`: the `_kind`-last, meta-less grid of the example above -/
+example : MetaUntagged (.obj
+    (.cons (s "rows") (.arr (.cons (.obj (.cons (s "_kind") (.str (s "dict")) (.cons (s "b") (.bool true)
+        (.cons (s "a") (.obj (.cons (s "_kind") (.str (s "marker")) .nil)) .nil)))) .nil))
+    (.cons (s "cols") (.arr (.cons (.obj (.cons (s "meta") (.obj .nil) (.cons (s "name") (.str (s "a")) .nil)))
+        (.cons (.obj (.cons (s "name") (.str (s "b")) .nil)) .nil)))
+    (.cons (s "_kind") (.str (s "grid")) .nil)))) := by
+  simp [MetaUntagged, MetaUntaggedM, MetaUntaggeds, Members.toList, Jsons.toList, s, Untagged, ColUntagged]
+  intro a b h _ mm e
+  rcases h with ⟨_, rfl⟩ | ⟨_, rfl⟩
+  · cases e; simp [Members.toList]
+  · cases e
+
+/-! ### why the read direction is not stated as "whatever the reference reader accepts"
+
+The reference reader looks the members it needs up by name and ignores every other member; the
+library's visitor decodes every member it meets before it knows the kind.  On
+`{"x":{"_kind":null},"_kind":"marker"}` the reader answers Marker and the visitor fails — but an object
+with a member `x` beside `"_kind":"marker"` is not a Hayson document, so this is a leniency of the reader,
+not a defect of the decoder.  `Denotes` admits exactly the members the specification lists.
+(Measured on the real code, 2026-09-29: `{"_kind":"marker","x":1}` is an ERROR for `from_str` ("trailing
+comma": serde_json refuses a map its visitor returned from early) and for `from_value` ("invalid length 2");
+`{"x":1,"_kind":"marker"}` is Marker for `from_str` and an error for `from_value` (which visits the members
+in key order).  The tree model's early return answers Marker in the first case: it is exact only on objects
+whose `marker`/`remove`/`na` tag is the last member visited — in particular on every Hayson document,
+where it is the only member.) -/
+theorem readDoc_lenient :
+    okIs (readDoc (.obj (.cons (s "x") (.obj (.cons (s "_kind") .null .nil))
+      (.cons (s "_kind") (.str (s "marker")) .nil)))) (fun v => match v with | .marker => true | _ => false) = true ∧
+    (fromJson (.obj (.cons (s "x") (.obj (.cons (s "_kind") .null .nil))
+      (.cons (s "_kind") (.str (s "marker")) .nil)))).tag = "err" := by
+  decide +kernel
 
 end Hs.C05
